@@ -24,6 +24,7 @@ type Case struct {
 	Constrs []gen.PC     `json:"constrs,omitempty"`
 	Cost    *oracle.Cost `json:"cost,omitempty"`
 	Detect  bool         `json:"detect"` // DetectAtMostOne before solving
+	NbMax   int          `json:"nbmax,omitempty"` // lowered learned-constraint limit (verif hook): reduction of the learned PB constraints
 	Family  string       `json:"family,omitempty"`
 }
 
@@ -111,7 +112,7 @@ func check0(c Case, o *vf.Obs) error {
 	}
 
 	// strategy off
-	gs.Arm(0, gs.DefaultStepLimit)
+	gs.Arm(c.NbMax, gs.DefaultStepLimit)
 	defer func() { gs.Arm(0, 0); solver.VerifCPLearned = nil; solver.VerifCPUnsat = nil }()
 	pbOff := build(c)
 	costOf := effectiveCost(c, pbOff)
@@ -126,7 +127,7 @@ func check0(c Case, o *vf.Obs) error {
 		ls = append(ls, learned{append([]int{}, lits...), append([]int{}, ws...), degree})
 	}
 	solver.VerifCPUnsat = func(s string) { site = s }
-	gs.Arm(0, 1_000_000)
+	gs.Arm(c.NbMax, 1_000_000)
 	pbOn := build(c)
 	domain := "A"
 	if c.Front != "cnf" {
@@ -150,11 +151,14 @@ func check0(c Case, o *vf.Obs) error {
 	})
 	solver.VerifCPLearned = nil
 	if perr == nil && c.Cost != nil {
-		gs.Arm(0, 1_000_000)
+		gs.Arm(c.NbMax, 1_000_000)
 		site = ""
 		sOpt := solver.New(build(c))
 		sOpt.CuttingPlanes = true
 		perr = vf.Safely(func() error { on = sOpt.Optimal(nil, nil); return nil })
+		o.ClassIf(sOpt.Stats.NbRestarts > 0, "cp-opt-restart>0")
+		o.ClassIf(sOpt.Stats.NbConflicts >= 512, "cp-opt-conflicts>=512")
+		o.ClassIf(sOpt.Stats.NbDeleted > 0, "cp-opt-reduceDB>0")
 	} else if on.Status == solver.Sat {
 		on.Weight = costOf(oracle.MaskOf(on.Model))
 	}
@@ -174,6 +178,8 @@ func check0(c Case, o *vf.Obs) error {
 	}
 	o.ClassIf(coefBig, "cp-learned-coef>1")
 	o.ClassIf(sOn.Stats.NbConflicts > 0, "conflicts>0")
+	o.ClassIf(sOn.Stats.NbDeleted > 0, "cp-reduceDB>0")
+	o.ClassIf(sOn.Stats.NbRestarts > 0, "cp-restart>0")
 	if len(ls) > 0 {
 		o.Nontrivial()
 	}
@@ -256,6 +262,9 @@ func genCNF(t *rapid.T) Case {
 		c.Family = "threshold-n21-40"
 	}
 	c.Detect = rapid.Bool().Draw(t, "detect")
+	if rapid.Bool().Draw(t, "low") {
+		c.NbMax = rapid.IntRange(2, 30).Draw(t, "limit")
+	}
 	return c
 }
 
@@ -313,8 +322,45 @@ func genPB(front string) func(t *rapid.T) Case {
 			c.Cost = &cf
 		}
 		c.Detect = gen.Chance(t, 1, 3, "detect")
+		if rapid.Bool().Draw(t, "low") {
+			c.NbMax = rapid.IntRange(2, 30).Draw(t, "limit")
+		}
 		return c
 	}
+}
+
+// genKnapsack: optimisation problems with knapsack equalities over 12..17 variables: hundreds of conflicts
+// under cutting planes, so that its Luby restarts (every 512 conflicts) and constraint-database reductions
+// happen; some cost literals are fixed by unit constraints.
+func genKnapsack(t *rapid.T) Case {
+	c := Case{Front: "pb", Family: "knapsack-eq"}
+	c.N = gen.Uniform(t, 14, 17, "n")
+	for i, m := 0, 2; i < m; i++ {
+		lits := gen.DistinctLits(t, c.N, gen.Uniform(t, c.N-2, c.N, "arity"), "l")
+		coefs := make([]int, len(lits))
+		sum := 0
+		for j := range lits {
+			if lits[j] < 0 {
+				lits[j] = -lits[j]
+			}
+			coefs[j] = gen.Uniform(t, 1, 30, "a")
+			sum += coefs[j]
+		}
+		c.Constrs = append(c.Constrs, gen.PC{Kind: "eq", Lits: lits, Coefs: coefs, K: gen.Uniform(t, sum/4, sum/2, "b")})
+	}
+	cf := oracle.Cost{Lits: make([]int, c.N), W: make([]int, c.N)}
+	for v := 1; v <= c.N; v++ {
+		cf.Lits[v-1] = v
+		cf.W[v-1] = gen.Uniform(t, 1, 12, "w")
+	}
+	c.Cost = &cf
+	for i, m := 0, rapid.IntRange(1, 2).Draw(t, "fixed"); i < m; i++ {
+		c.Constrs = append(c.Constrs, gen.PC{Kind: "gteq", Lits: []int{gen.Uniform(t, 1, c.N, "f")}, Coefs: []int{1}, K: 1})
+	}
+	if rapid.Bool().Draw(t, "low") {
+		c.NbMax = rapid.IntRange(20, 200).Draw(t, "limit")
+	}
+	return c
 }
 
 var _ = strings.Contains
@@ -324,6 +370,8 @@ func init() {
 	vf.Register(
 		vf.Sub[Case]{Name: "cnf", Quick: 1200, Thorough: 25000, Gen: genCNF, Check: check, Floor: 0.3, StepLimitFails: stepFails,
 			Rule: "domain A, pure CNF: small formulas with odd clause shapes, parity/pigeonhole formulas, threshold 3-SAT n in 10..40, clique-rich formulas (what DetectAtMostOne rewrites); with/without prior DetectAtMostOne" + tail},
+		vf.Sub[Case]{Name: "knapsack", Quick: 400, Thorough: 3000, Gen: genKnapsack, Check: check, Floor: 0.5,
+			Rule: "domain B, optimisation with 1..2 knapsack equalities (coefficients 1..25) over 12..17 variables, weighted objective over all variables, 0..2 cost literals fixed by unit constraints: hundreds to thousands of conflicts under cutting planes (restarts, reductions); brute force over 2^n" + tail},
 		vf.Sub[Case]{Name: "card", Quick: 10000, Thorough: 100000, Gen: genPB("card"), Check: check, Floor: 0.1, StepLimitFails: stepFails,
 			Rule: "domain B, cardinality problems via ParseCardConstrs: uniform, dense, pigeonhole with at-most-one constraints; optional cost function; with/without prior DetectAtMostOne" + tail},
 		vf.Sub[Case]{Name: "pb", Quick: 10000, Thorough: 100000, Gen: genPB("pb"), Check: check, Floor: 0.1, StepLimitFails: stepFails,
